@@ -336,13 +336,13 @@ DgReplyD(c, ct, idlen, id) ==
 UFrags == IF nofrag THEN <<>> ELSE Frags
 
 Use(a, arg, e, d) ==        \* a use that leaves the message alone
-  /\ UNCHANGED <<flat, cur, cont, mode, nofrag>>
+  /\ UNCHANGED <<flat, cur, cont, mode, ebase, nofrag>>
   /\ obs' = [a |-> a, arg |-> arg, exp |-> e]
   /\ des' = d
 
 UInitMsg(data, cut) ==
   LET fr == CutUp(data, cut) IN
-  /\ flat' = data /\ mode' = "msg"
+  /\ flat' = data /\ mode' = "msg" /\ ebase' = <<"slice", 0>>
   /\ IF cut = <<>> THEN cur' = <<>> /\ cont' = <<>> /\ nofrag' = TRUE
      ELSE cur' = fr[1] /\ cont' = Tail(fr) /\ nofrag' = FALSE
   /\ obs' = [a |-> "init", arg |-> [data |-> data, cut |-> cut],
@@ -354,7 +354,7 @@ URead(n, dest) == Read(n, dest) /\ UNCHANGED nofrag
 ULength        == Length /\ UNCHANGED nofrag
 UArgv(sep)     == Argv(sep) /\ UNCHANGED nofrag
 UArrMsg(sep)   == ArrMsg(sep) /\ UNCHANGED nofrag
-UAppend(pre)   == MsgAppend(pre) /\ UNCHANGED nofrag
+UAppend(pre)   == MsgAppend(pre, "roomy", 0) /\ UNCHANGED nofrag
 
 \* iovec calls on the list of fragments the message was made of
 VAsk(a, arg, e, d) == Use(a, arg, Exp(e, <<>>, flat), Exp(d, <<>>, Flat(UFrags)))
@@ -393,7 +393,7 @@ CfgNext(sep) ==
   LET e == CfgNextF(flat, sep)
       d == CfgNextD(cur, cont, sep)
   IN
-  /\ flat' = e.content /\ cur' = d.cur /\ cont' = d.cont /\ UNCHANGED <<mode, nofrag>>
+  /\ flat' = e.content /\ cur' = d.cur /\ cont' = d.cont /\ UNCHANGED <<mode, ebase, nofrag>>
   /\ obs' = [a |-> "cfgnext", arg |-> [sep |-> sep], exp |-> e]
   /\ des' = [ret |-> d.ret, val |-> d.val, path |-> d.path, content |-> Flat(<<d.cur>> \o d.cont)]
 
@@ -401,7 +401,7 @@ Property(sep) ==
   LET e == PropertyF(flat, sep)
       d == PropertyD(cur, cont, sep)
   IN
-  /\ flat' = e.content /\ cur' = d.cur /\ cont' = d.cont /\ UNCHANGED <<mode, nofrag>>
+  /\ flat' = e.content /\ cur' = d.cur /\ cont' = d.cont /\ UNCHANGED <<mode, ebase, nofrag>>
   /\ obs' = [a |-> "property", arg |-> [sep |-> sep], exp |-> e]
   /\ des' = [ret |-> d.ret, name |-> d.name, value |-> d.value, content |-> Flat(<<d.cur>> \o d.cont)]
 
@@ -443,7 +443,7 @@ DecCmd(c) ==
   LET e == DecCmdF(flat, c)
       d == DecCmdD(Frags, c)
   IN
-  /\ flat' = e.content /\ cur' = d.fr[1] /\ cont' = Tail(d.fr) /\ UNCHANGED <<mode, nofrag>>
+  /\ flat' = e.content /\ cur' = d.fr[1] /\ cont' = Tail(d.fr) /\ UNCHANGED <<mode, ebase, nofrag>>
   /\ obs' = [a |-> "deccmd", arg |-> [curr |-> c], exp |-> e]
   /\ des' = [ret |-> d.ret, state |-> d.state, content |-> Flat(d.fr)]
 
